@@ -21,6 +21,8 @@ Translation rules (the trusted part of this tie; what the generated text *means*
   every call in the module that can change the file system (open with a mode other than "r"/"rb", os.open/remove/unlink/rename/replace/
   truncate/chmod/makedirs/mkdir/rmdir/symlink/link, shutil.*, tempfile.*, Path.write_text/write_bytes/touch/unlink/rename/replace/mkdir/rmdir/
   open) -> one entry of `fs_mutations`, "<callee>:<mode>:<first argument's source text>"
+  the same scan over cli/html_report.py -> `report_fs_mutations`; the literal default of `generate_report`'s `output_path` parameter ->
+  `report_default_path`; the argument shape of each `generate_report(…)` call in main.py -> `report_calls`
   comparisons `<x>.<attr> == "lit"` / `<x>.<attr> in ("a", "b")` / `<name> in ("a", "b")` / `"lit" in <name>` / `<x>.<attr>.startswith("lit")` inside
   `resolve_variable`, `process_nodes_recursive` and the per-file loop of `main` -> entries of `dispatch_tests`, in source order, as (function, subject, operator, literals)
   `re.search(LIT, …)` / `re.compile(LIT)` -> entries of `regex_literals`, in source order
@@ -288,6 +290,28 @@ def generate():
     attempt("target_ratio", lambda: gen_target_ratio(fns["process_nodes_recursive"]))
     attempt("fs_mutations", lambda: gen_fs_mutations(tree, src))
     attempt("fs_reads", lambda: gen_reads(tree, src))
+
+    def report_part():
+        rp = os.path.join(REPO, "src", "cm_colors", "cli", "html_report.py")
+        rsrc = open(rp, encoding="utf-8").read()
+        rtree = ast.parse(rsrc)
+        t = gen_fs_mutations(rtree, rsrc).replace("def fs_mutations", "def report_fs_mutations").replace("in cli/main.py", "in cli/html_report.py")
+        # where the report goes: the default of generate_report's output_path parameter, and how main calls it
+        gr = [n for n in rtree.body if isinstance(n, ast.FunctionDef) and n.name == "generate_report"]
+        if len(gr) != 1:
+            raise Unsupported("generate_report not found")
+        names = [a.arg for a in gr[0].args.args]
+        defaults = dict(zip(names[len(names) - len(gr[0].args.defaults):], gr[0].args.defaults))
+        d = defaults.get("output_path")
+        if not (isinstance(d, ast.Constant) and isinstance(d.value, str)):
+            raise Unsupported("generate_report has no literal default output_path")
+        calls = [c for c in ast.walk(tree) if isinstance(c, ast.Call) and call_name(c.func) == "generate_report"]
+        shapes = ["%d positional%s" % (len(c.args), "".join(", %s=%s" % (k.arg, ast.get_source_segment(src, k.value)) for k in c.keywords)) for c in calls]
+        t += "\n/-- the report file: default of `generate_report(…, output_path=…)`, and the argument shapes of its calls in cli/main.py -/\n"
+        t += "def report_default_path : String := %s\ndef report_calls : List String := [%s]\n" % (slit(d.value), ", ".join(slit(x) for x in shapes))
+        return t
+
+    attempt("report_fs_mutations", report_part)
     def per_file_loop(main):
         loops = [s for s in ast.walk(main) if isinstance(s, ast.For) and isinstance(s.target, ast.Name) and getattr(s.iter, "id", None) == "files"]
         if len(loops) != 1:
